@@ -74,9 +74,9 @@ class SQLLineageApp:
                     request_body = environ["wsgi.input"].read(request_body_size)
                     payload = json.loads(request_body)
                     for param in ["d", "f"]:
-                        if param in payload and not str(
-                            Path(payload[param]).absolute()
-                        ).startswith(str(Path(self.root_path).absolute())):
+                        if param in payload and not self.is_path_allowed(
+                            payload[param]
+                        ):
                             return self.handle_403(start_response)
                     data = self.routes[path_info](payload)
                     return self.handle_200_json(start_response, data)
@@ -104,6 +104,14 @@ class SQLLineageApp:
             return self.handle_404(start_response)
         except (SQLLineageException, RuntimeError) as e:
             return self.handle_400(start_response, str(e))
+
+    def is_path_allowed(self, path) -> bool:
+        """
+        whether path, with '.', '..' and symbolic links resolved, is root_path or located under it
+        """
+        root = Path(self.root_path).resolve()
+        target = Path(path).resolve()
+        return target == root or root in target.parents
 
     @staticmethod
     def handle_200_text(start_response, mimetype, text) -> list[bytes]:
@@ -194,6 +202,9 @@ def directory(payload):
         root = Path(payload["d"])
     else:
         root = Path(SQLLineageConfig.DIRECTORY)
+    if (payload.get("f") or payload.get("d")) and not app.is_path_allowed(root):
+        # parent directory of root_path itself is not allowed for listing
+        raise PermissionError(root)
     data = {
         "id": str(root),
         "name": root.name,
